@@ -52,6 +52,7 @@ def hunt4_rules(chk, repo):
     else:
         chk.violation("C18.close.tls", rel if rel is not None else tc, "BaseConnector._release(key, protocol, should_close=True)", "if should_close and key.is_ssl and self._ssl_shutdown_timeout == 0: protocol.abort()",
                       "the connection of a timed-out or cancelled https request to a stalled peer is close()d gracefully: asyncio waits up to 30 s for the peer's close_notify, the socket is in neither _conns nor _acquired, survives session.close() and `limit` no longer bounds the open sockets; ssl_shutdown_timeout=0 (`immediate abort`) is honoured only by connector.close()")
+    tls_release_rule(chk, repo, "C18.close.tls")
     # ---- C18.scope.total (buffered data): a read that takes buffered data without waiting still looks at the deadline ---------------------------------
     sr = repo.cls(STREAMS, "StreamReader")
     nt = 0
@@ -71,6 +72,28 @@ def hunt4_rules(chk, repo):
             chk.violation("C18.scope.total", takes[0].ast, K.short(takes[0].ast, 60), "self._timer.assert_timeout() before self._read_nowait_chunk(...)",
                           f"StreamReader.{mname}() takes buffered data through _read_nowait_chunk() without looking at the request timer (the other read methods go through _read_nowait(), which asserts it): with data flowing steadily `async for line in resp.content` never waits, so ClientTimeout(total=...) is never enforced", path=g.fmt_path(p))
     chk.expect_count("C18.scope.total", nt, 2, "public StreamReader coroutines that call the consumption primitive directly")
+
+
+def tls_release_rule(chk, repo, rule):
+    """(fifth hunt, F291; shared with C07) The abort decision of TCPConnector._release() is taken on the verdict the base class will act on:
+    release() of an unfinished exchange (`async with session.get(...)` left by a timeout, a cancellation or an early exit) passes
+    should_close=False and leaves the verdict to protocol.should_close - the base class then closes gracefully."""
+    tc = repo.cls(CONN, "TCPConnector")
+    rel = tc.methods.get("_release")
+    if rel is None:
+        chk.analysis_error(f"{rule}: TCPConnector._release not found")
+        return
+    ab = [c for c in prog.calls_in(rel.node) if norm.raw(c.func) == "protocol.abort"]
+    if not ab:
+        return  # reported by the clause above
+    st = K.stmt_of(ab[0])
+    test_txt = " ".join(l.text for cl_ in PC.pc(st, raw=True) for l in cl_)
+    folded = [a for a in ast.walk(rel.node) if isinstance(a, ast.Assign) and norm.raw(a.targets[0]) == "should_close" and "protocol.should_close" in norm.raw(a.value) and "should_close" in norm.raw(a.value).replace("protocol.should_close", "") and a.lineno < st.lineno]
+    if "protocol.should_close" in test_txt or folded:
+        chk.ok(rule, (folded or [st])[0], "TCPConnector._release(): the abort decision takes the protocol's own verdict (an unfinished exchange released with should_close=False) into account")
+    else:
+        chk.violation(rule, st, K.short(st), "should_close = should_close or bool(protocol.should_close)  before the abort decision",
+                      "an abandoned https download that is given back with release() (`async with session.get(...)` left with the body unfinished: sock_read timeout, cancel, early exit) passes should_close=False; the abort decision only looks at the argument, and BaseConnector._release() then closes gracefully because protocol.should_close is true: the socket to a stalled peer stays ESTABLISHED for 30 s, above `limit`, in neither _conns nor _acquired, and survives session.close()")
 
 
 def run(chk):
